@@ -20,7 +20,8 @@ func init() {
 			"{sole, second of two, variadic tail with 0/1/2 extras, array as last argument} x 129 JS arguments (every integer type's min-1/min/max/max+1 both as " +
 			"int64 literal and as double, float32 boundaries, NaN/Infinity/-0, strings, booleans, null, undefined, objects, arrays with holes/mixed kinds/nesting, " +
 			"functions, Date, boxed primitives, 15 Go values handed to the script and passed back); every cell is executed plain and inside try and judged by " +
-			"loudOK/match (exact or loud). arity: 7 signatures x 0..n+2 arguments; returns: 18 multi-return shapes. histories (E2): breadth-first over " +
+			"loudOK/match (exact or loud). arity: 7 signatures x 0..n+2 arguments; returns: 18 multi-return shapes. callhist: call histories (every sequence of 2 and 3 argument pairs) on one wrapped Go function per result shape, under one name, " +
+			"two names and in two runtimes, with results held across calls and read again at the end; retained variadic slices, returned funcs, legitimately shared slices, re-entrant Go->JS->Go calls. histories (E2): breadth-first over " +
 			"script-side operations (write k<-v, delete k, length=n, push, pop, method calls) and Go-side operations (set, insert, delete, append, reslice) on 7 live " +
 			"containers, sharded by (container, first operation), states deduplicated on (Go contents, script-held header, aliasing, script-only properties); " +
 			"every transition is replayed on a fresh container and judged by the transition relation plus view coherence (traversal, Object.keys, for-in, " +
@@ -32,6 +33,7 @@ func init() {
 			{Name: "matrix", Run: runMatrix},
 			{Name: "arity", Run: runArity},
 			{Name: "returns", Run: runReturns},
+			{Name: "callhist", Run: runCallHist},
 			{Name: "histories", Run: runHistories},
 			{Name: "lethal", Run: runLethal},
 		},
